@@ -70,6 +70,7 @@ func zzReset(fx *zzFixture) {
 	zzLogLines = nil
 	zzDocs = nil
 	zzDocSlices = map[*interface{}]bool{}
+	zzSharedCfg = nil
 }
 
 func zzEngine() bool { return false }
